@@ -384,3 +384,139 @@ func loopIsUnconditional(li loopInfo) bool {
 	_, endsInIf := li.header.Instrs[len(li.header.Instrs)-1].(*ssa.If)
 	return !endsInIf
 }
+
+// MAP-ORDER-CARRIED: a value carried from one iteration of a range-over-map loop to the next (a phi in the loop
+// header, or in the header of a loop nested in it that merges a value defined outside the map loop's iteration)
+// makes the result depend on Go's randomised iteration order unless the update is order-insensitive.
+type carriedPhi struct {
+	loop loopInfo
+	phi  *ssa.Phi
+}
+
+func mapRangeLoops(fn *ssa.Function) []loopInfo {
+	var out []loopInfo
+	for _, li := range naturalLoops(fn) {
+		for _, in := range li.header.Instrs {
+			if nx, ok := in.(*ssa.Next); ok && !nx.IsString {
+				if r, ok := nx.Iter.(*ssa.Range); ok {
+					if _, isMap := r.X.Type().Underlying().(*types.Map); isMap {
+						out = append(out, li)
+					}
+				}
+			}
+		}
+	}
+	return out
+}
+
+func mapRangeCarried(fn *ssa.Function) []carriedPhi {
+	var out []carriedPhi
+	for _, li := range mapRangeLoops(fn) {
+		for _, in := range li.header.Instrs {
+			if p, ok := in.(*ssa.Phi); ok {
+				out = append(out, carriedPhi{li, p})
+			}
+		}
+	}
+	return out
+}
+
+// carriedKind classifies how the header phi is updated inside the loop.
+//   - "append": every in-loop edge value is append(phi-derived, ...) (order matters unless sorted afterwards)
+//   - "count": integer phi updated by + / - constants or lengths
+//   - "flag": boolean phi
+//   - "other": anything else (a plain value overwritten in some iterations: the last / first writer wins)
+func carriedKind(c carriedPhi) string {
+	t := c.phi.Type().Underlying()
+	if b, ok := t.(*types.Basic); ok {
+		if b.Info()&types.IsBoolean != 0 {
+			return "flag"
+		}
+		if b.Info()&types.IsInteger != 0 {
+			return "count"
+		}
+	}
+	if _, ok := t.(*types.Slice); ok {
+		return "append"
+	}
+	return "other"
+}
+
+// carriedCells: address-taken variables (Allocs) defined outside a range-over-map loop and used inside it. They carry
+// state across iterations just like a header phi, unless the first thing every iteration does with them is Reset().
+type carriedCell struct {
+	loop    loopInfo
+	cell    *ssa.Alloc
+	resetOK bool
+}
+
+func mapRangeCarriedCells(fn *ssa.Function) []carriedCell {
+	var out []carriedCell
+	for _, li := range mapRangeLoops(fn) {
+		for _, b := range fn.Blocks {
+			if li.body[b] {
+				continue
+			}
+			for _, in := range b.Instrs {
+				al, ok := in.(*ssa.Alloc)
+				if !ok {
+					continue
+				}
+				switch al.Type().(*types.Pointer).Elem().Underlying().(type) {
+				case *types.Slice, *types.Map, *types.Chan, *types.Signature, *types.Interface, *types.Pointer:
+					continue // accumulating containers / handles: element order is decided elsewhere
+				}
+				var uses []ssa.Instruction
+				for _, ref := range *al.Referrers() {
+					if li.body[ref.Block()] {
+						if _, dbg := ref.(*ssa.DebugRef); !dbg {
+							uses = append(uses, ref)
+						}
+					}
+				}
+				if len(uses) == 0 {
+					continue
+				}
+				var reset ssa.Instruction
+				for _, u := range uses {
+					if c, ok := u.(ssa.CallInstruction); ok {
+						if sc := staticCallee(c); sc != nil && sc.Name() == "Reset" && len(c.Common().Args) > 0 && c.Common().Args[0] == ssa.Value(al) {
+							reset = u
+						}
+					}
+					if st, ok := u.(*ssa.Store); ok && st.Addr == ssa.Value(al) { // plain re-initialisation `x = zero`
+						if _, isConst := st.Val.(*ssa.Const); isConst && reset == nil {
+							reset = u
+						}
+					}
+				}
+				ok2 := reset != nil
+				if ok2 {
+					for _, u := range uses {
+						if u == reset {
+							continue
+						}
+						if u.Block() == reset.Block() {
+							if instrIndex(u) < instrIndex(reset) {
+								ok2 = false
+							}
+						} else if !reset.Block().Dominates(u.Block()) {
+							ok2 = false
+						}
+					}
+				}
+				out = append(out, carriedCell{li, al, ok2})
+			}
+		}
+	}
+	return out
+}
+
+func instrIndex(in ssa.Instruction) int {
+	for i, x := range in.Block().Instrs {
+		if x == in {
+			return i
+		}
+	}
+	return -1
+}
